@@ -139,6 +139,9 @@ class SchedulerScriptAdapter(ScriptAdapter):
         alloc_search = list(re.finditer(self.launcher_regex, step_cmd))
         if alloc_search:
             # If we find that launcher nomenclature.
+            # The step's totals may be absent ("") or substituted strings.
+            max_nodes = int(nodes or 0)
+            max_procs = int(procs or 0)
             total_nodes = 0     # Total nodes we've allocated so far.
             total_procs = 0     # Total processors we've allocated so far.
             cmd = step_cmd      # The step command we'll substitute into.
@@ -197,7 +200,7 @@ class SchedulerScriptAdapter(ScriptAdapter):
                 if _nodes:
                     _ = int(_nodes)
                     total_nodes += _
-                    if _ > nodes:
+                    if max_nodes and _ > max_nodes:
                         msg.append(
                             err_msg.format(
                                 match.group(), _nodes, "nodes", nodes
@@ -207,7 +210,7 @@ class SchedulerScriptAdapter(ScriptAdapter):
                 if _procs:
                     _ = int(_procs)
                     total_procs += _
-                    if _ > procs:
+                    if max_procs and _ > max_procs:
                         msg.append(
                             err_msg.format(
                                 match.group(), _procs, "procs", procs
@@ -224,13 +227,13 @@ class SchedulerScriptAdapter(ScriptAdapter):
                 cmd = cmd.replace(match.group(), pcmd)
 
             # Verify that the total nodes/procs used is within maximum.
-            if total_procs > procs:
+            if max_procs and total_procs > max_procs:
                 msg = "Total processors ({}) requested exceeds the " \
                       "maximum requested ({})".format(total_procs, procs)
                 LOGGER.error(msg)
                 raise ValueError(msg)
 
-            if nodes and total_nodes > nodes:
+            if max_nodes and total_nodes > max_nodes:
                 msg = "Total nodes ({}) requested exceeds the " \
                       "maximum requested ({})".format(total_nodes, nodes)
                 LOGGER.error(msg)
